@@ -12,6 +12,7 @@ import copy
 import json
 import random
 import re
+import gc
 import sys
 
 from harness import wrapproto as wp
@@ -56,6 +57,7 @@ def run(ctx):
     try:
         _run(ctx)
     finally:
+        gc.collect()                 # left-over generators are finalised while the hook is still silenced
         sys.unraisablehook = old_hook
 
 
